@@ -508,6 +508,10 @@ impl Connection {
             _ => false,
         };
 
+        if !close {
+            self.drop_unsendable_datagrams();
+        }
+
         // Check whether we need to send an ACK_FREQUENCY frame
         if let Some(config) = &self.config.ack_frequency_config {
             self.spaces[SpaceId::Data].pending.ack_frequency = self
@@ -3879,6 +3883,22 @@ impl Connection {
                 .outgoing
                 .front()
                 .is_some_and(|x| x.size(true) <= max_size)
+    }
+
+    /// Discard datagrams at the head of the send queue that no longer fit in a packet
+    ///
+    /// The maximum datagram size can shrink after a datagram was queued, e.g. when the peer
+    /// migrates to a fresh path, when the path state is reset, or when the remote CID grows. An
+    /// oversized datagram at the head of the queue would otherwise block every later datagram
+    /// forever.
+    fn drop_unsendable_datagrams(&mut self) {
+        let Some(max_datagram_size) = self.datagrams().max_size() else {
+            return;
+        };
+        if self.datagrams.drop_oversized_front(max_datagram_size) && self.datagrams.send_blocked {
+            self.datagrams.send_blocked = false;
+            self.events.push_back(Event::DatagramsUnblocked);
+        }
     }
 
     /// Update counters to account for a packet becoming acknowledged, lost, or abandoned
